@@ -8,6 +8,8 @@ package c02
 //
 //	sys <plain|shared>                  fresh system + a subscriber of the dead-letter topic
 //	missing <proto|string|struct> <n>   n tells to an address that never existed
+//	reborn <proto|string|struct> <n>    a reference used while nobody lives at its address, then an actor is created
+//	                                    under that name and the same reference object is used for n tells: all handled
 //	stopped <k> <stop|limit>            an actor fails on its first message while k more are queued; the supervisor
 //	                                    stops it (Stop directive, or Restart with limit 0): the k queued messages
 //	backlog <k> <g|n>                   an actor is busy while k messages are queued, then it is terminated
@@ -201,6 +203,51 @@ func (r *dlRunner) Step(t []string) string {
 			r.sys.Tell(ghost, m)
 		}
 		return r.report(ids)
+	case t[0] == "reborn" && len(t) == 3:
+		// one reference object used while nobody lives at its address (dead letter), then an actor is created
+		// under that very name, then the SAME reference object is used again: those messages must be handled
+		n, ok := proto.Atoi(t[2])
+		if !ok || n < 1 || n > 64 || (t[1] != "proto" && t[1] != "string" && t[1] != "struct") {
+			return "bad-op"
+		}
+		r.nextID++
+		name := fmt.Sprintf("reborn%d", r.nextID)
+		named := func(d *vivid.ActorDescriptor) { d.WithName(name) }
+		old := r.sys.ActorOfF(func() vivid.Actor { return vivid.FunctionalActor(func(ctx vivid.ActorContext) {}) }, named)
+		r.sys.Terminate(old, false)
+		dl := time.Now().Add(3 * time.Second)
+		for vivid.VerifIsRegistered(r.sys, old) && time.Now().Before(dl) {
+			time.Sleep(time.Millisecond)
+		}
+		time.Sleep(5 * time.Millisecond)
+		first, firstID := r.mk(t[1])
+		r.sys.Tell(old, first)
+		if rep := r.report([]int64{firstID}); rep != "sent=1 handled=0 dead=1 dup=0 foreign=0" {
+			return "first: " + rep
+		}
+		launched := make(chan struct{})
+		r.sys.ActorOfF(func() vivid.Actor {
+			return vivid.FunctionalActor(func(ctx vivid.ActorContext) {
+				switch m := ctx.Message().(type) {
+				case *vivid.OnLaunch:
+					close(launched)
+				case *wrapperspb.Int64Value, string, *dlStruct:
+					r.handled(m)
+				}
+			})
+		}, named)
+		select {
+		case <-launched:
+		case <-time.After(3 * time.Second):
+			return "err:launch"
+		}
+		var ids []int64
+		for i := 0; i < n; i++ {
+			m, id := r.mk(t[1])
+			ids = append(ids, id)
+			r.sys.Tell(old, m)
+		}
+		return r.report(ids)
 	case t[0] == "stopped" && len(t) == 3:
 		k, ok := proto.Atoi(t[1])
 		if !ok || k < 0 || k > 64 || (t[2] != "stop" && t[2] != "limit") {
@@ -285,7 +332,9 @@ func deadlettersGen(rng *proto.RNG, tier string, shard, nshards int, w *bufio.Wr
 		fmt.Fprintf(w, "sys %s\n", mode)
 		for k := rng.Range(2, 5); k > 0; k-- {
 			switch rng.Intn(4) {
-			case 0, 1:
+			case 0:
+				fmt.Fprintf(w, "reborn %s %d\n", []string{"proto", "string", "struct"}[rng.Intn(3)], rng.Range(1, 6))
+			case 1:
 				fmt.Fprintf(w, "missing %s %d\n", []string{"proto", "string", "struct"}[rng.Intn(3)], rng.Range(1, 6))
 			case 2:
 				fmt.Fprintf(w, "stopped %d %s\n", rng.Range(0, 6), []string{"stop", "limit"}[rng.Intn(2)])
